@@ -157,6 +157,33 @@ Definition wire (head : bool) (u : uw) : bytes :=
   if bodyless head (r_status u) then [] else concat (map render (r_segs u)).
 End Codec.
 
+(* ---------- vocabulary of the theorems ---------- *)
+Section Client.
+Variable gz : list bytes -> bytes.
+Variable gunzip : bytes -> option bytes.
+(* what a client honouring Content-Encoding obtains (None: it cannot decode the response) *)
+Definition client_body (head : bool) (u : uw) : option bytes :=
+  if bodyless head (r_status u) then Some []
+  else match r_ce u with
+       | [] => Some (wire gz head u)
+       | [c] => if beq c GZIP then gunzip (wire gz head u) else None
+       | _ => None
+       end.
+(* [out] (gzip enabled) carries the same content as [inn] (identity run) and says so:
+   either the representation is untouched, or exactly one gzip layer was added on an
+   unencoded response and Content-Encoding names exactly that layer *)
+Definition transparent (head : bool) (out inn : uw) : Prop :=
+  r_status out = r_status inn /\
+  ((r_ce out = r_ce inn /\ wire gz head out = wire gz head inn) \/
+   (r_ce inn = [] /\ r_ce out = [GZIP] /\
+    (bodyless head (r_status out) = true \/ gunzip (wire gz head out) = Some (wire gz head inn)))).
+(* Content-Length, when the handler chain fixes it, is the length of what is sent *)
+Definition cl_correct (head : bool) (u : uw) : Prop :=
+  r_cl u = [] \/ exists v, r_cl u = [v] /\ parse_int v = Some (Z.of_nat (length (wire gz head u))).
+End Client.
+Definition weak_of (e : bytes) : bytes :=
+  if negb (beq e []) && negb (has_prefix e WEAK) then WEAK ++ e else e.
+
 (* ---------- the gzip directive ---------- *)
 Record gcfg := { c_exts : list bytes; c_not : list bytes; c_min : Z (* 0 = no min_length *) }.
 
@@ -262,19 +289,26 @@ Definition sib_data (sibs : list (bytes * bytes)) (ext : bytes) : option bytes :
   match find (fun s => beq ext (fst s)) sibs with Some s => Some (snd s) | None => None end.
 Definition ETAG_TOKEN : bytes := bs """etag""".
 
+(* headers set by serveFile + http.ServeContent before the body, and the bytes served *)
+Definition static_hdrs (prio : list (bytes * bytes)) (ae : bytes) (data : bytes)
+           (sibs : list (bytes * bytes)) : list op * bytes :=
+  let avail := fun ext => match sib_data sibs ext with Some _ => true | None => false end in
+  match select_sibling prio ae avail with
+  | Some (name, ext) =>
+      let d := match sib_data sibs ext with Some d => d | None => [] end in
+      ([OAdd K_VARY V_AE; OSet K_CE name; OSet K_CL (decimal (N.of_nat (length d))); OSet K_ETAG ETAG_TOKEN], d)
+  | None =>
+      ([OSet K_ETAG ETAG_TOKEN; OSet K_CL (decimal (N.of_nat (length data)))], data)
+  end.
 Definition static_script (prio : list (bytes * bytes)) (head : bool) (ae : bytes)
            (data : bytes) (sibs : list (bytes * bytes)) : list op :=
-  let avail := fun ext => match sib_data sibs ext with Some _ => true | None => false end in
-  let '(pre, body, encoded) :=
-    match select_sibling prio ae avail with
-    | Some (name, ext) =>
-        let d := match sib_data sibs ext with Some d => d | None => [] end in
-        ([OAdd K_VARY V_AE; OSet K_CE name; OSet K_CL (decimal (N.of_nat (length d)))], d, true)
-    | None => ([], data, false)
-    end in
-  pre ++ [OSet K_ETAG ETAG_TOKEN] ++
-  (if encoded then [] else [OSet K_CL (decimal (N.of_nat (length body)))]) ++
-  [OWriteHeader 200] ++ (if head then [] else [OWrite body]).
+  fst (static_hdrs prio ae data sibs) ++
+  OWriteHeader 200 :: (if head then [] else [OWrite (snd (static_hdrs prio ae data sibs))]).
+
+(* the tables as they were when the property was written (for the refutation witnesses) *)
+Definition skip_snapshot : list bytes := [bs "gzip"; bs "compress"; bs "deflate"; bs "br"].
+Definition priority_snapshot : list (bytes * bytes) :=
+  [(bs "zstd", bs ".zst"); (bs "br", bs ".br"); (bs "gzip", bs ".gz")].
 
 (* ---------- executable spec helpers (independent of the model functions above) ---------- *)
 (* RFC 7231 5.3.4 reading of Accept-Encoding: comma list, coding name before ';',
